@@ -19,8 +19,13 @@ ASSUMES = ['fewer than 16^8 rows per duplicated resource', 'concatenate\'s docum
 FIELD_POOL = ['a', 'b', 'c', 'd', 'e']
 
 
+NAME_POOL = ['r0', 'r.1', 'r-1', 'rx1', 'a+', 'a', 'aa', 'b(1)', 's.2020', 's_2020']
+
+
 def gen_pkg(rng, nres=None, big=False):
     nres = nres or rng.randint(1, 5)
+    # names that are regular expressions matching a sibling when read as patterns: name lists must be taken literally
+    rnames = ['r%d' % i for i in range(nres)] if rng.chance(0.5) else rng.sample(NAME_POOL, nres)
     res = []
     for i in range(nres):
         names = rng.sample(FIELD_POOL, rng.randint(1, 4))
@@ -35,7 +40,7 @@ def gen_pkg(rng, nres=None, big=False):
             col = [r[pk[0]] for r in rows]
             if None in col or len(set(col)) != len(col):
                 pk = None        # data must conform to the declared key
-        res.append({'name': 'r%d' % i, 'fields': [{'name': f, 'type': types[f]} for f in names], 'rows': rows_enc(rows), 'pk': pk})
+        res.append({'name': rnames[i], 'fields': [{'name': f, 'type': types[f]} for f in names], 'rows': rows_enc(rows), 'pk': pk})
     return res
 
 
@@ -79,6 +84,13 @@ def gen_cases(rng, tier):
             c['mutate_after'] = rng.chance(0.6)
             # a following delete_resource of the original (or of the copy): the survivor keeps all its rows
             c['then_delete'] = rng.pick([None, None, 'source', 'copy'])
+            # or a later schema edit restricted to one of the twins: the other twin keeps its own descriptor
+            srcname = c['source'] or names[0]
+            sfields = [f['name'] for r in pk if r['name'] == srcname for f in r['fields']]
+            srcpk = [r['pk'] for r in pk if r['name'] == srcname][0] or []
+            droppable = [f for f in sfields if f not in srcpk]
+            if c['then_delete'] is None and len(sfields) >= 2 and droppable and rng.chance(0.5):
+                c['then_edit'] = [rng.pick(['source', 'copy']), rng.pick(droppable)]
         elif k == 'delete':
             c['selected'] = [x for x in names if rng.chance(0.4)]
         else:
@@ -112,6 +124,11 @@ def deleted_after_dup(case):
     return src if case['then_delete'] == 'source' else (case['target'] or src + '_copy')
 
 
+def edited_after_dup(case):
+    src = case['source'] or case['pkg'][0]['name']
+    return src if case['then_edit'][0] == 'source' else (case['target'] or src + '_copy')
+
+
 def steps_of(case):
     k = case['kind']
     if k == 'concat':
@@ -123,6 +140,8 @@ def steps_of(case):
                            duplicate_to_end=case['to_end'])]
         if case.get('then_delete'):
             st.append(DF.delete_resource([deleted_after_dup(case)]))
+        if case.get('then_edit'):
+            st.append(DF.delete_fields([case['then_edit'][1]], resources=[edited_after_dup(case)], regex=False))
         return st
     if k == 'delete':
         return [DF.delete_resource(case['selected'])]
@@ -219,6 +238,15 @@ def expected(case):
                 (tail if case['to_end'] else out).append(c)
         if case.get('then_delete'):
             return ('ok', [r for r in out + tail if r['name'] != deleted_after_dup(case)])
+        if case.get('then_edit'):
+            who, f = edited_after_dup(case), case['then_edit'][1]
+            res_ = []
+            for r in out + tail:
+                if r['name'] == who:
+                    rows = rows_enc([dict((k_, v_) for k_, v_ in row.items() if k_ != f) for row in rows_dec(r['rows'])])
+                    r = dict(r, fields=[x for x in r['fields'] if x[0] != f], rows=rows)
+                res_.append(r)
+            return ('ok', res_)
         return ('ok', out + tail)
     if k == 'append':
         new = [{'name': r['name'], 'fields': [[f['name'], f['type']] for f in r['fields']], 'pk': r['pk'] or [],
@@ -346,6 +374,8 @@ def coq_term(case, out):
         model = 'duplicate 8 %s %s %s %s %s' % (cstr(src), cstr(tn), cstr(tn + '.csv'), cbool(case['to_end']), coq_pkg(p))
         if case.get('then_delete'):
             model = 'delete_resource (fun n => str_in n %s) (%s)' % (cstrs([deleted_after_dup(case)]), model)
+        if case.get('then_edit'):
+            return None        # the follow-up edit is judged by the oracle only
         return 'false' if 'error' in out else 'pkg_eqb (%s) %s' % (model, coq_pkg(out['pkg']))
     sel = 'fun n => str_in n %s' % cstrs(case['selected']) if case['selected'] is not None else 'fun _ => true'
     model = 'concatenate %s %s %s (%s) %s' % (
